@@ -11,7 +11,9 @@ import ast
 
 from ..core import rule, AnalysisError
 from ..engine import flow, rx
+from ..engine import pattern as P
 from ..engine.facts import dotted, const, src, call_name, walk_func
+from .common import pn, access_paths
 from ..engine import cfg as cfgmod
 
 
